@@ -20,7 +20,7 @@ CONSTANTS
   LastDay = 84005
   Emit = TRUE
   Stride = %d
-INVARIANTS WellFormed Anchors EmitLine
+INVARIANTS WellFormed ClosedForm Anchors EmitLine
 CHECK_DEADLOCK FALSE
 """ % stride
 
@@ -49,8 +49,10 @@ def run(tier):
         else:
             os.environ["TZ"] = env_tz
     events, bad, tr = core.trace_validate("Trace_Calendar", path, "c17-trace",
-                                          extra_states=lambda evs: evs[-1]["day"])
+                                          extra_states=lambda evs: max([e["day"] for e in evs if e["k"] != "far"] or [0]))
     for i, ev in bad:
+        if ev.get("_reason") == "recorder-civil-fields":
+            raise core.ToolError("the recorder's civil fields do not satisfy Calendar!ValidCivil: %r" % ev)
         v.add([dict(key="C17:field", line=i, trace=path, pattern=ev["p"], timestamp=ev["day"] * 86400 + ev["sod"],
                     observed=core.cp_text(ev["out"]), tz=ev["tz"])])
     core.log("  validated %d recorded events (TZ=Pacific/Kiritimati), %d rejected" % (len(events), len(bad)))
